@@ -49,6 +49,17 @@ specification.  Every record of the main variant also carries the public read ac
 the model's orientation flag; 'unknown' before a search), and `mappings` / `get_mappings()` / iteration / `num_mappings`
 must agree with `get_mappings('pattern_to_host')`.
 
+REPRESENTATION / SCALE streams (run after all others; generators in the section "representation and scale"): bond orders written
+as NON-NUMERIC labels ('-' '=' '#' ':' / SINGLE DOUBLE ... - values float() rejects, for which the main matcher documents a generic
+`==` fall-back and the MTG matcher never matches), alone, next to numbers in one graph, in two vocabularies, and as members of ITS
+pairs (also None members): `tiny-symbolic<=3` (the tiny-exhaustive population relabelled, all options defaulted),
+`symbolic-orders`; `value-types` - the numbers of a case presented to the implementation as a per-value seeded mix of int / float /
+numpy.int64 / numpy.float64 / numeric strings (field "dress" of a case, see `dressed`; the model side sees the one `Val.num`);
+`unselected-attributes` (weight / label / id / name / capacity ... that no option selects); `falsy-labels` (0, 0.0, '', () as
+element / order / default / wildcard, node id 0); `big-numbers` (multi-digit values 10 / 100 / 101 / 12 / 21 / 2500 / 12.5, node ids
+up to 10^12); `dense-beyond-exhaustive` and `scale-7..9` (one step beyond the sizes of the exhaustive and random streams, maximum
+mode); the same populations through the component-level entry points / other routes and in sessions on one reused matcher.
+
 When implementation and model differ, `spec.mcs` decides whether the property itself is violated
 on the implementation's output (then the input is shrunk and reported), otherwise the broken
 correspondence is reported without input.
@@ -58,6 +69,7 @@ import copy
 import io
 import itertools
 import json
+import zlib
 
 from ..core import build_and_audit, ROOT
 from ..shrink import shrink_seq
@@ -86,6 +98,102 @@ def _unval_opt(xs):
     return None if xs is None else [graphio.unval(x) for x in xs]
 
 
+# ---------------------------------------------------------------- representation of values ("dress")
+# A case / session may carry the field "dress": {"seed": int, "num": [styles...], "ids": [styles...]}.  It says how the NUMBERS of
+# the graph JSON are presented to the implementation; the model side never sees it (every style below is `==` to the plain
+# number and encodes to the same `Val.num`).  The style of one value is a pure function (crc32) of (seed, graph tag, node id /
+# edge end points, attribute key, position inside a tuple), so it is reproducible from the case alone, it mixes styles WITHIN
+# one graph, and it does not move when the shrinker drops other nodes / edges.
+#   "int"     1 -> 1 (1.5 stays a float)          "float"   1 -> 1.0
+#   "npint"   1 -> numpy.int64(1)                 "npfloat" 1 -> numpy.float64(1.0)
+#   "numstr"  1 -> "1" / "1.0" / "+1" / "1.00"    only for a SCALAR value of an EDGE attribute: both matchers document / implement
+#             the comparison of edge attributes as float(a) == float(b), for which "1" and 1 are the same order; (node attributes
+#             are compared with ==, and a tuple with ==, where "1" != 1: never dressed as strings)
+# "ids": the same for node ids ("int" | "npint"): graphs assembled from numpy arrays carry numpy.int64 node ids.
+NUM_STYLES = ["int", "float", "npint", "npfloat", "numstr"]
+
+
+def _pick(dress, where, n, salt=""):
+    return zlib.crc32("|".join(map(str, (dress.get("seed", 0), salt) + tuple(where))).encode()) % n
+
+
+def dressed(j, dress, where, strok=False):
+    """graph-JSON value -> the Python object handed to the implementation."""
+    if not dress or j is None:
+        return graphio.unval(j)
+    if "t" in j:
+        return tuple(dressed(y, dress, tuple(where) + (i,), False) for i, y in enumerate(j["t"]))
+    if "n" not in j:
+        return graphio.unval(j)
+    h = j["n"]
+    styles = dress.get("num") or ["int"]
+    st = styles[_pick(dress, where, len(styles))]
+    if st == "numstr" and not strok:
+        st = "float"
+    if strok and st in ("npint", "npfloat") and dress.get("edge_np") is False:
+        st = "float"   # see `settle_dress`
+    if st == "int":
+        return h // 2 if h % 2 == 0 else h / 2
+    if st == "float":
+        return h / 2
+    if st in ("npint", "npfloat"):
+        import numpy as np
+
+        return np.int64(h // 2) if (st == "npint" and h % 2 == 0) else np.float64(h / 2)
+    forms = ([str(h // 2), repr(h / 2), repr(h / 2) + "0"] + (["+" + str(h // 2)] if h >= 0 else [])) if h % 2 == 0 else [repr(h / 2), repr(h / 2) + "0"]
+    return forms[_pick(dress, where, len(forms), "form")]
+
+
+def settle_dress(dress, graphs):
+    """numpy scalars are not used for SCALAR edge values when some edge value of the input is a tuple: `numpy.float64(1) != (1, 2)`
+    is an array, not a bool, so the matcher's documented generic `!=` fall-back has no truth value there (it raises ValueError);
+    C12 says nothing about that combination and the stream does not gate it (tuple members and node values may still be numpy)."""
+    if dress and any("t" in (v or {}) for g in graphs for e in g["edges"] for v in e[2].values()):
+        dress["edge_np"] = False
+    return dress
+
+
+def dressed_id(n, dress, where):
+    styles = (dress or {}).get("ids")
+    if not styles or styles[_pick(dress, where, len(styles), "id")] == "int":
+        return n
+    import numpy as np
+
+    return np.int64(n)
+
+
+def _fill_dressed(G, j, dress, tag):
+    for n, a in j["nodes"]:
+        G.add_node(dressed_id(n, dress, (tag, "n", n)), **{k: dressed(v, dress, (tag, "n", n, k)) for k, v in a.items()})
+    for u, v, a in j["edges"]:
+        lo, hi = min(u, v), max(u, v)
+        G.add_edge(dressed_id(u, dress, (tag, "e", lo, hi, u)), dressed_id(v, dress, (tag, "e", lo, hi, v)),
+                   **{k: dressed(x, dress, (tag, "e", lo, hi, k), True) for k, x in a.items()})
+    return G
+
+
+def to_nx_dressed(j, dress, tag):
+    """graphio.to_nx with the numbers presented as `dress` says (no dress: exactly graphio.to_nx)."""
+    if not dress:
+        return graphio.to_nx(j)
+    import networkx as nx
+
+    return _fill_dressed(nx.Graph(), j, dress, tag)
+
+
+def nx_of(case, key):
+    return to_nx_dressed(case[key], case.get("dress"), key)
+
+
+def _defaults(case):
+    nd = case.get("node_defaults")
+    return None if nd is None else [dressed(x, case.get("dress"), ("nd", i)) for i, x in enumerate(nd)]
+
+
+def _wildcard(case, wc):
+    return dressed(wc[1], case.get("dress"), ("wc",))
+
+
 # Component-level entry points of the same matcher (no Lean search model; gated by the specification only):
 #   "mcs_mol"       find_common_subgraph(G1, G2, mcs=?, mcs_mol=True)                     main + MTG (`_find_mcs_mol`)
 #   "rc_mol"        find_rc_mapping(G1, G2, side="its", mcs=?, mcs_mol=True, component=False)   main (same code path)
@@ -102,6 +210,8 @@ def is_ok(im):
 def modes_of(case, modes_main=None, modes_mtg=None):
     if case.get("entry"):
         return [(bool(case.get("entry_mcs", False)), bool(case.get("entry_prune", False)) and case.get("variant", "main") != "mtg")]
+    if case.get("modes"):  # a case that fixes its own modes (large pairs: maximum mode only)
+        return list(dict.fromkeys((bool(a), bool(b) and case.get("variant", "main") != "mtg") for a, b in case["modes"]))
     return (modes_mtg or MODES_MTG) if case.get("variant", "main") == "mtg" else (modes_main or MODES_MAIN)
 
 
@@ -158,8 +268,8 @@ DIRECTION_NAME = {True: "G1_to_G2", False: "G2_to_G1", None: "unknown"}
 
 def impl_run_entry(case, mcs, prune):
     """One query through a component-level entry point on a fresh matcher."""
-    G1 = graphio.to_nx(case["g1"])
-    G2 = graphio.to_nx(case["g2"])
+    G1 = nx_of(case, "g1")
+    G2 = nx_of(case, "g2")
     before = (graphio.graph(G1), graphio.graph(G2))
     mtg = case.get("variant", "main") == "mtg"
     try:
@@ -244,7 +354,7 @@ def deliver(case):
                 its_nx(case["g2"], call["other2"], side in ("l", "op")))
     out = []
     for which, key in ((1, "g1"), (2, "g2")):
-        G = graphio.to_nx(case[key])
+        G = nx_of(case, key)
         halo = [h for h in call.get("view") or [] if h[0] == which]
         if halo:
             inner = list(G.nodes)
@@ -371,10 +481,10 @@ def impl_run(case, mcs, prune):
         return impl_run_call(case, mcs, prune)
     if case.get("entry"):
         return impl_run_entry(case, mcs, prune)
-    G1 = graphio.to_nx(case["g1"])
-    G2 = graphio.to_nx(case["g2"])
+    G1 = nx_of(case, "g1")
+    G2 = nx_of(case, "g2")
     G1c, G2c = copy.deepcopy(G1), copy.deepcopy(G2)
-    nk, nd, ek = case.get("node_keys"), _unval_opt(case.get("node_defaults")), case.get("edge_keys")
+    nk, nd, ek = case.get("node_keys"), _defaults(case), case.get("edge_keys")
     try:
         if case.get("variant", "main") == "mtg":
             from synkit.Graph.MTG.mcs_matcher import MCSMatcher as M
@@ -395,7 +505,7 @@ def impl_run(case, mcs, prune):
             kw = {}
             wc = case.get("prune_wc")
             if wc is not None:
-                kw.update(prune_wc=True, element_key=wc[0], wildcard_element=graphio.unval(wc[1]))
+                kw.update(prune_wc=True, element_key=wc[0], wildcard_element=_wildcard(case, wc))
             try:
                 m = M(node_attrs=nk, node_defaults=nd, edge_attrs=ek, prune_automorphisms=prune, **kw)
             except ValueError:
@@ -1424,16 +1534,18 @@ def comp_session(rnd, variant):
 #                                               result is not gated (out of scope), only that it leaves nothing behind
 # Every "find" step is judged exactly like a stand-alone case: model and specification are computed from the CURRENT
 # content of the two graphs, the options and the mode alone.
-def _fill(G, j):
+def _fill(G, j, dress=None, tag=None):
     G.clear()
-    for n, a in j["nodes"]:
-        G.add_node(n, **{k: graphio.unval(v) for k, v in a.items()})
-    for u, v, a in j["edges"]:
-        G.add_edge(u, v, **{k: graphio.unval(x) for k, x in a.items()})
+    _fill_dressed(G, j, dress, tag)
+
+
+def session_tags(sess):
+    """Dress tags of the pool objects (kept by `compact_session`, so that a shrunk session presents the same values)."""
+    return sess.get("dress_tags") or [f"p{i}" for i in range(len(sess["graphs"]))]
 
 
 def _make_matcher(sess, prune):
-    nk, nd, ek = sess.get("node_keys"), _unval_opt(sess.get("node_defaults")), sess.get("edge_keys")
+    nk, nd, ek = sess.get("node_keys"), _defaults(sess), sess.get("edge_keys")
     call = sess.get("call") or {}
     kw = {}
     if call.get("allow_shift") is not None:
@@ -1450,7 +1562,7 @@ def _make_matcher(sess, prune):
 
     wc = sess.get("prune_wc")
     if wc is not None:
-        kw.update(prune_wc=True, element_key=wc[0], wildcard_element=graphio.unval(wc[1]))
+        kw.update(prune_wc=True, element_key=wc[0], wildcard_element=_wildcard(sess, wc))
     if call.get("positional"):
         shift = [kw.pop("allow_shift")] if "allow_shift" in kw else []
         return M(nk, nd, *shift, edge_attrs=ek, prune_automorphisms=prune, **kw)
@@ -1474,7 +1586,8 @@ def session_run(sess):
     out = []
     try:
         m = _make_matcher(sess, prune)
-        objs = [graphio.to_nx(g) for g in cur]
+        dress, tags = sess.get("dress"), session_tags(sess)
+        objs = [to_nx_dressed(g, dress, tags[i]) for i, g in enumerate(cur)]
     except Exception as e:
         return [(0, {"g1": cur[0], "g2": cur[0], **cfg}, True, prune, {"exception": "session setup: " + type(e).__name__ + ": " + str(e)[:200]}, 0)]
     held = None  # (python result object of the previous find, its recorded value)
@@ -1483,7 +1596,7 @@ def session_run(sess):
     for si, st in enumerate(sess["steps"]):
         op = st["op"]
         if op == "set_graph":
-            _fill(objs[st["g"]], st["graph"])
+            _fill(objs[st["g"]], st["graph"], dress, tags[st["g"]])
             cur[st["g"]] = st["graph"]
         elif op == "new_object":
             objs[st["g"]] = copy.deepcopy(objs[st["g"]])
@@ -1644,7 +1757,11 @@ def compact_session(sess):
     used = sorted({st[k] for st in sess["steps"] for k in ("a", "b", "g") if k in st})
     f = {g: i for i, g in enumerate(used)}
     steps = [{k: (f[v] if k in ("a", "b", "g") else v) for k, v in st.items()} for st in sess["steps"]]
-    return {**sess, "graphs": [sess["graphs"][g] for g in used], "steps": steps}
+    out = {**sess, "graphs": [sess["graphs"][g] for g in used], "steps": steps}
+    if sess.get("dress"):
+        tags = session_tags(sess)
+        out["dress_tags"] = [tags[g] for g in used]
+    return out
 
 
 def report_session(ctx, sess, diffs, viols, tag):
@@ -1985,6 +2102,333 @@ def route_sessions(rnd, base, nsteps):
     return sess
 
 
+# ---------------------------------------------------------------- representation and scale
+# Values that are legal but outside what the other generators write: bond orders given as NON-NUMERIC labels (the main matcher
+# documents a generic `==` fall-back for values float() rejects: GML-style '-', '=', '#', ':', RDKit-style 'SINGLE' ...; ITS
+# pairs with such a member or with None), numbers of another Python type / print (see "dress"), attributes nobody selected but
+# a library default could pick up (weight, label, id, name, capacity), falsy labels (0, 0.0, '', ()), multi-digit numbers and
+# huge node ids, and sizes just beyond the other streams.  The expected answer is always the pure Lean model / specification on
+# the graph JSON of the case.  Every label used here is rejected by Python's float() (no 'nan', 'inf', '1e3', ...), so the
+# model's "strings do not parse as numbers" holds.
+SYMBOL_VOCABS = [
+    {1.0: "-", 2.0: "=", 3.0: "#", 1.5: ":"},
+    {1.0: "SINGLE", 2.0: "DOUBLE", 3.0: "TRIPLE", 1.5: "AROMATIC"},
+    {1.0: "single", 2.0: "double", 3.0: "triple", 1.5: "aromatic"},
+    {1.0: "s", 2.0: "d", 3.0: "t", 1.5: "a"},
+    {1.0: "1-", 2.0: "2=", 3.0: "3#", 1.5: "1.5:"},   # labels that START like a number
+]
+EDGE_ORDER_KEYS = ["order", "standard_order"]
+
+
+def _sym(vocab, o):
+    return vocab.get(o, o) if not isinstance(o, tuple) else tuple(vocab.get(x, x) for x in o)
+
+
+def symbolise(rnd, a, b, how):
+    """Rewrite the bond orders of a raw pair as labels.  Edges with the same end points in both graphs (planted common part, a
+    copy) are treated alike, so the common part survives exactly when the labels agree."""
+    va = rnd.choice(SYMBOL_VOCABS)
+    vb = va
+    if how == "cross":      # the second graph speaks another vocabulary: no labelled bond matches
+        vb = rnd.choice([v for v in SYMBOL_VOCABS if v is not va])
+    p = 0.55 if how == "mixed" else 1.0   # mixed: some bonds of ONE graph numeric, others symbolic
+    keys = rnd.choice([["order"], ["order", "standard_order"], ["order", "standard_order"]])
+    tab = {}
+    for g, vocab, side in ((a, va, "a"), (b, vb, "b")):
+        if how == "one_side" and side == "b":
+            continue
+        for e, at in g[1].items():
+            for k in keys:
+                if k not in at:
+                    continue
+                if (e, k) not in tab:
+                    tab[(e, k)] = rnd.random() < p
+                if tab[(e, k)]:
+                    at[k] = _sym(vocab, at[k])
+    return va, vb
+
+
+def symbolic_pairs(rnd, a, b):
+    """ITS-style pairs with a non-numeric member: (x, y) against (x, y) / (y, x) / (x, None) / (None, y) / (x,) / x on the same
+    bond of the other graph; members are labels, None, or a label next to a number."""
+    vocab = rnd.choice(SYMBOL_VOCABS)
+    pool = list(vocab.values()) + [None, 1.0, 2.0]
+    for e in list(a[1]):
+        if rnd.random() < 0.7:
+            x = rnd.choice(pool[:4])
+            y = rnd.choice([q for q in pool if q != x])
+            if rnd.random() < 0.5:
+                x, y = y, x
+            a[1][e]["order"] = (x, y)
+            if e in b[1]:
+                b[1][e]["order"] = rnd.choice([(x, y), (x, y), (x, y), (y, x), (y, x), (x, None), (None, y), (x,), x, (x, x)])
+    for e in b[1]:
+        if e not in a[1] and rnd.random() < 0.5:
+            b[1][e]["order"] = tuple(rnd.sample(pool, 2))
+
+
+def relabel_one_bond(rnd, a, b):
+    """One-edit neighbour: one bond both graphs share gets ANOTHER value of the kind it has (another label / a label instead of
+    the number / the pair reversed)."""
+    shared = [e for e in a[1] if e in b[1] and "order" in a[1][e]]
+    if not shared:
+        return
+    e = rnd.choice(shared)
+    o = a[1][e]["order"]
+    labels = [x for v in SYMBOL_VOCABS for x in v.values()]
+    if isinstance(o, tuple):
+        new = tuple(reversed(o)) if len(set(o)) > 1 else o + (None,)
+    elif isinstance(o, str):
+        same_vocab = [x for v in SYMBOL_VOCABS if o in v.values() for x in v.values() if x != o]
+        new = rnd.choice(same_vocab or labels)
+    else:
+        new = rnd.choice(labels)
+    b[1][e]["order"] = new
+
+
+SYMBOLIC_HOW = ["same", "same", "same", "same", "mixed", "mixed", "cross", "one_side", "pairs", "pairs"]
+
+
+def symbolic_case(rnd, variant, how=None, default_opts=None):
+    how = how or rnd.choice(SYMBOLIC_HOW)
+    kind = rnd.choice(["planted", "planted", "copy", "copy", "copy", "symmetric", "disconnected", "random"])
+    a, b = base_pair(rnd, kind, rnd.randint(2, 5), rnd.randint(2, 6))
+    if how == "pairs":
+        symbolic_pairs(rnd, a, b)
+    else:
+        symbolise(rnd, a, b, how)
+    if rnd.random() < 0.5:
+        relabel_one_bond(rnd, a, b)
+    if default_opts if default_opts is not None else rnd.random() < 0.5:
+        cfg = dict(node_keys=None, node_defaults=None, edge_keys=None)   # every option at its default
+    else:
+        cfg = dict(rnd.choice(CFGS))
+    if variant == "mtg" and cfg["edge_keys"] is not None:
+        cfg["edge_keys"] = [cfg["edge_keys"][0]] if cfg["edge_keys"] else ["order"]
+    na, ea, nb, eb = finish_pair(rnd, a, b, variant, cfg)
+    if rnd.random() < 0.15:
+        degrade(rnd, na, ea, p_edge=0.2, none_p=0.1)
+        degrade(rnd, nb, eb, p_edge=0.2, none_p=0.1)
+    return {"g1": mk_graph(na, ea), "g2": mk_graph(nb, eb), "variant": variant, **cfg}
+
+
+def tiny_symbolic(case, vocab):
+    """A tiny-exhaustive pair with its two bond orders written as labels."""
+    c = copy.deepcopy(case)
+    for g in ("g1", "g2"):
+        for e in c[g]["edges"]:
+            e[2]["order"] = V(vocab[graphio.unval(e[2]["order"]) * 1.0])
+    return c
+
+
+def rand_dress(rnd, ids=True):
+    k = rnd.choice([2, 3, 3, 4, 5])
+    styles = rnd.sample(NUM_STYLES, k)
+    d = {"seed": rnd.randrange(1 << 30), "num": styles}
+    if ids and rnd.random() < 0.4:
+        d["ids"] = ["int", "npint"]
+    return d
+
+
+def types_case(rnd, variant):
+    """A pair of the other generators whose numbers reach the implementation as a seeded mix of int / float / numpy.int64 /
+    numpy.float64 / numeric strings (edge scalars only)."""
+    r = rnd.random()
+    if r < 0.4:
+        c = options_case(rnd, variant)
+    elif r < 0.6:
+        c = rare_case(rnd, variant, rnd.choice(["tuple_swap", "sym_break", "missing_opt"]))
+    elif r < 0.7:
+        c = comp_case(rnd, variant, 5, 6)
+    else:
+        c = rand_case(rnd, rnd.choice(["planted", "copy", "copy", "degraded", "symmetric"]), variant)
+    c["dress"] = settle_dress(rand_dress(rnd), [c["g1"], c["g2"]])
+    return c
+
+
+EXTRA_EDGE_ATTRS = ["weight", "label", "id", "name", "capacity", "key", "color"]
+EXTRA_NODE_ATTRS = ["label", "id", "name", "weight", "color", "atom_map"]
+
+
+def add_extras(rnd, case):
+    """Attributes no option selects (networkx / library conventions: weight, label, id, name, capacity ...), with values that
+    differ between the two graphs and inside one graph."""
+    for g in ("g1", "g2"):
+        ekeys = rnd.sample(EXTRA_EDGE_ATTRS, rnd.randint(1, 3))
+        nkeys = rnd.sample(EXTRA_NODE_ATTRS, rnd.randint(0, 2))
+        for e in case[g]["edges"]:
+            for k in ekeys:
+                if rnd.random() < 0.8:
+                    e[2][k] = V(rnd.choice([0, 1, 2, 0.5, 3.5, 10, "a", "b", "", None, (1, 2)]))
+        for n in case[g]["nodes"]:
+            for k in nkeys:
+                if rnd.random() < 0.8:
+                    n[1][k] = V(rnd.choice([0, 1, 2, 7, "x", "y", "", None]))
+    return case
+
+
+def extras_case(rnd, variant):
+    r = rnd.random()
+    c = (rand_case(rnd, rnd.choice(["planted", "copy", "symmetric", "disconnected"]), variant) if r < 0.6
+         else symbolic_case(rnd, variant) if r < 0.8 else comp_case(rnd, variant, 5, 6))
+    sel = set(c.get("node_keys") or ["element"]) | set(c.get("edge_keys") or ["order"])
+    add_extras(rnd, c)
+    for g in ("g1", "g2"):   # (never a key the option set selects)
+        for it in c[g]["nodes"]:
+            assert not (set(it[1]) & set(EXTRA_NODE_ATTRS) & sel)
+    if rnd.random() < 0.3:
+        c["dress"] = settle_dress(rand_dress(rnd), [c["g1"], c["g2"]])
+    return c
+
+
+def falsy_case(rnd, variant):
+    """Labels that are falsy in Python: element '' / 0, order 0 / 0.0 / '' / (), charge 0 next to a missing charge, node id 0,
+    falsy defaults, a falsy wildcard."""
+    kind = rnd.choice(["planted", "planted", "copy", "copy", "symmetric", "random"])
+    a, b = base_pair(rnd, kind, rnd.randint(2, 5), rnd.randint(2, 6))
+    elems = ["C", "N", "O", "S"]
+    emap = dict(zip(rnd.sample(elems, 2), rnd.sample(["", 0, "0", 0.0][:3], 2)))   # two element types become falsy labels
+    omap = dict(zip(rnd.sample([1.0, 2.0, 1.5, 3.0], 2), rnd.sample([0, "", (), (0, 0), "0-"], 2)))
+    for g in (a, b):
+        for at in g[0].values():
+            at["element"] = emap.get(at["element"], at["element"])
+        for at in g[1].values():
+            for k in EDGE_ORDER_KEYS:
+                if k in at and not isinstance(at[k], tuple):
+                    at[k] = omap.get(at[k], at[k])
+    nk = rnd.choice([["element"], ["element", "charge"], ["charge", "element"], None])
+    nd = None
+    if nk is not None and rnd.random() < 0.7:
+        nd = [V(rnd.choice(["", 0, "*"]) if k == "element" else 0) for k in nk]
+    ek = rnd.choice([None, ["order"], ["order", "standard_order"]])
+    if variant == "mtg" and ek is not None:
+        ek = ek[:1]
+    cfg = dict(node_keys=nk, node_defaults=nd, edge_keys=ek)
+    if variant == "main" and rnd.random() < 0.3:
+        cfg["prune_wc"] = ["element", V(rnd.choice(list(emap.values())))]
+    na, ea, nb, eb = finish_pair(rnd, a, b, variant, cfg)
+    for ns in (na, nb):     # the id 0 is in use; some atoms leave the attribute to the (falsy) default
+        for _, at in ns:
+            if rnd.random() < 0.2:
+                at.pop("element", None)
+            if rnd.random() < 0.25:
+                at.pop("charge", None)
+    for es in (ea, eb):
+        for _, _, at in es:
+            r = rnd.random()
+            if r < 0.08:
+                at.pop("order", None)
+            elif r < 0.14:
+                at["order"] = None
+    f1 = {i: k for k, (i, _) in enumerate(na)}
+    na = [(f1[i], at) for i, at in na]
+    ea = [(f1[u], f1[v], at) for u, v, at in ea]
+    c = {"g1": mk_graph(na, ea), "g2": mk_graph(nb, eb), "variant": variant, **cfg}
+    if rnd.random() < 0.3:
+        c["dress"] = settle_dress({"seed": rnd.randrange(1 << 30), "num": rnd.sample(["int", "float", "npint", "npfloat"], 2)}, [c["g1"], c["g2"]])
+    return c
+
+
+BIG_NUMBERS = [10, 11, 12, 21, 100, 101, 110, 50, 2500, 12.5, 10.5, 105, 1000000, 99, 15, 150]
+BIG_ID_BASE = [1000, 10 ** 6, 2 ** 31, 2 ** 40 + 1, 10 ** 12]
+
+
+def _map_vals(j, f):
+    if j is None:
+        return None
+    if "n" in j:
+        return f(j)
+    if "t" in j:
+        return {"t": [_map_vals(y, f) for y in j["t"]]}
+    return j
+
+
+def bignum_case(rnd, variant):
+    """A pair of the options generator in which every distinct number (orders, charges, hydrogen counts, weights, defaults, the
+    wildcard value) is replaced one-to-one by a multi-digit one (10 / 100 / 101 / 110, 12 / 21, 2500, 12.5 ...; zero stays in
+    half of the cases) and the node ids are moved far up (10^3 .. 10^12, stride 1 / 7 / 1000).  Equalities between values are
+    exactly those of the original pair."""
+    c = options_case(rnd, variant) if rnd.random() < 0.6 else rand_case(rnd, rnd.choice(["planted", "copy", "symmetric"]), variant)
+    c = copy.deepcopy(c)
+    table = {}
+    pool = BIG_NUMBERS[:]
+    rnd.shuffle(pool)
+    keep_zero = rnd.random() < 0.5
+    neg = rnd.random() < 0.5
+
+    def f(j):
+        h = j["n"]
+        if h == 0 and keep_zero:
+            return j
+        if h not in table:
+            x = pool.pop() if pool else 3000 + len(table)
+            if h < 0 and neg:
+                x = -x
+            table[h] = int(x * 2)
+        return {"n": table[h]}
+    ids = {}
+    for g in ("g1", "g2"):
+        base, stride = rnd.choice(BIG_ID_BASE), rnd.choice([1, 1, 7, 1000])
+        for n in c[g]["nodes"]:
+            ids[(g, n[0])] = base + stride * n[0]
+            n[0] = ids[(g, n[0])]
+            n[1] = {k: _map_vals(v, f) for k, v in n[1].items()}
+        for e in c[g]["edges"]:
+            e[0], e[1] = ids[(g, e[0])], ids[(g, e[1])]
+            e[2] = {k: _map_vals(v, f) for k, v in e[2].items()}
+    if c.get("node_defaults") is not None:
+        c["node_defaults"] = [_map_vals(v, f) for v in c["node_defaults"]]
+    if c.get("prune_wc") is not None:
+        c["prune_wc"] = [c["prune_wc"][0], _map_vals(c["prune_wc"][1], f)]
+    if rnd.random() < 0.3:
+        c["dress"] = settle_dress(rand_dress(rnd), [c["g1"], c["g2"]])
+    return c
+
+
+def scale_case(rnd, variant):
+    """One or two atoms beyond the random stream (7..8 x 7..9 atoms), maximum mode only."""
+    n1, n2 = rnd.randint(7, 8), rnd.randint(7, 9)
+    kind = rnd.choice(["planted", "copy", "disconnected", "symmetric"])
+    if kind == "planted":
+        core_n, core_e = carve(rnd, *rand_mol(rnd, 7), size=rnd.randint(4, 6))
+        a, b = grow(rnd, core_n, core_e, n1 - len(core_n)), grow(rnd, core_n, core_e, n2 - len(core_n))
+    else:
+        a, b = base_pair(rnd, kind, n1, n2)
+    cfg = dict(rnd.choice(CFGS[:5]))
+    if variant == "mtg":
+        cfg["edge_keys"] = [cfg["edge_keys"][0]]
+    na, ea, nb, eb = finish_pair(rnd, a, b, variant, cfg)
+    return {"g1": mk_graph(na, ea), "g2": mk_graph(nb, eb), "variant": variant, **cfg,
+            "modes": [[True, False]] if variant == "mtg" else [[True, False], [True, True]]}
+
+
+def dense_tiny(rnd, n, offset, labels=ELEMS2, orders=(1.0, 2.0)):
+    """A uniformly random labelled graph on n nodes over the tiny alphabet (dense: every pair is no bond / order 1 / order 2)."""
+    ns = [(offset + i, {"element": rnd.choice(labels)}) for i in range(n)]
+    es = []
+    for i in range(n):
+        for j in range(i + 1, n):
+            o = rnd.choice([None, None, orders[0], orders[1]])
+            if o is not None:
+                es.append((offset + i, offset + j, {"order": o}) if rnd.random() < 0.5 else (offset + j, offset + i, {"order": o}))
+    rnd.shuffle(ns)
+    rnd.shuffle(es)
+    return mk_graph(ns, es)
+
+
+def repr_session(rnd, variant):
+    """One matcher object over a pool built from a pair of the representation generators (the dress travels with the pool)."""
+    r = rnd.random()
+    base = (symbolic_case(rnd, variant) if r < 0.45 else types_case(rnd, variant) if r < 0.7
+            else falsy_case(rnd, variant) if r < 0.85 else bignum_case(rnd, variant))
+    if len(base["g1"]["nodes"]) > 5 or len(base["g2"]["nodes"]) > 6:
+        base = symbolic_case(rnd, variant)
+    sess = rand_session(rnd, base, rnd.randint(2, 5))
+    if base.get("dress"):
+        sess["dress"] = settle_dress(dict(base["dress"]), sess["graphs"] + [st["graph"] for st in sess["steps"] if st["op"] == "set_graph"])
+    return sess
+
+
 def load_regress():
     d = ROOT / "regress" / "C12"
     out = []
@@ -2011,8 +2455,11 @@ def run(ctx):
         "of the comparison (only the shapes it documents: typesGH = (left, right) 5-tuples, order = (left, right) numbers, 0 = no bond)",
     ]
     ctx.assumptions = [
-        "selected edge attribute values are numbers (multiples of 1/2), None or tuples of such; selected node attribute values are "
-        "strings, numbers or None (no bool/numeric-string values, for which Python's == / float() identify values the model keeps apart)",
+        "selected edge attribute values are numbers (multiples of 1/2, |x| <= 10^6), None, strings that Python's float() rejects "
+        "('-', '=', 'SINGLE', '' ...; never 'nan' / 'inf' / '1e3'), or tuples of such; a numeric string ('1', '1.0', '+1', '1.50') as a "
+        "scalar edge value is the number it prints (both matchers compare edge values through float()); selected node attribute values "
+        "are strings, numbers or None (no bool values, for which Python's == identifies values the model keeps apart; a node label '0' "
+        "is a string); int / float / numpy.int64 / numpy.float64 spellings of one number are one value (Python == and the JSON codec agree)",
         "node ids are non-negative integers; graphs are simple undirected nx.Graph without self-loops",
         "node_attrs / node_label_names is a list (not a bare string)",
         "route streams: the attribute `aromatic` of a decomposed ITS side is a bool on every atom of both graphs (bool against bool "
@@ -2065,7 +2512,23 @@ def run(ctx):
         "ROUTES-ENTRY: the same pairs (1/4 molecule sets up to 8x8) as ONE component-level query: find_rc_mapping(side, component=True) / "
         "(side, mcs_mol=True, component=False) / find_common_subgraph(mcs_mol=True) (MTG: find_rc_mapping(mcs_mol=True)), 15% as the call with "
         "every argument defaulted, 1/16 with a side string outside the documented four. SESSION-ROUTES: random sessions in which 60% of the "
-        "ordinary queries are spelled find_rc_mapping(side='its'|'ITS'|'Its', component=False) or find_common_subgraph without mcs."
+        "ordinary queries are spelled find_rc_mapping(side='its'|'ITS'|'Its', component=False) or find_common_subgraph without mcs. "
+        "REPRESENTATION streams (after all others): TINY-SYMBOLIC = ordered pairs of <=3-node classes (quick: seeded 12%, thorough: all) with "
+        "the two bond orders written as labels of one of 5 vocabularies ('-' '=' / SINGLE DOUBLE / single double / s d / '1-' '2='), all "
+        "options defaulted, maximum mode and enumeration; SYMBOLIC-ORDERS = molecule-like pairs (planted / copy / ring / disconnected / random, "
+        "<=5x6) whose orders (order, standard_order) are labels in both graphs (40%), labels on a seeded 55% of the bonds next to numbers (20%), "
+        "two different vocabularies (10%), one graph only (10%), or ITS pairs with a label / None member against the same, reversed, "
+        "half-None, 1-tuple, scalar (20%); 50% get one shared bond relabelled; 50% all-default options; VALUE-TYPES = options / rare / "
+        "molecule-set / random pairs whose numbers reach the matcher as a per-value seeded mix of 2..5 of {int, float, numpy.int64, "
+        "numpy.float64, numeric string (edge scalars only)}, also inside tuples, defaults and the wildcard value, 40% with numpy.int64 node ids "
+        "mixed with int; UNSELECTED-ATTRIBUTES = pairs carrying 1..3 of weight / label / id / name / capacity / key / color on edges and "
+        "0..2 of label / id / name / weight / color / atom_map on nodes with values differing between and inside the graphs; FALSY-LABELS = "
+        "two element types renamed to '' / 0 / '0', two order values to 0 / '' / () / (0,0) / '0-', defaults '' / 0, wildcard falsy, node "
+        "ids 0.., attributes missing / None; BIG-NUMBERS = options / random pairs with every distinct number replaced one-to-one by a "
+        "multi-digit one (10, 11, 12, 21, 100, 101, 110, 2500, 12.5, 10^6 ...) and ids moved to 10^3..10^12 with stride 1 / 7 / 1000; "
+        "DENSE-BEYOND-EXHAUSTIVE = uniformly random dense graphs on 3..4 x 4 (thorough ..5) nodes over the tiny alphabet, 30% symbolic, "
+        "maximum mode; SCALE = planted / copy / disconnected / ring pairs of 7..8 x 7..9 atoms, maximum mode; the same populations as "
+        "component-level queries / other routes, and SESSION-REPRESENTATION = 2..5 queries on one matcher around such a pair."
     )
     ctx.nontrivial_rule = ("(pair, mode) distinct as JSON, run in maximum mode, with mcs size >= 2 and smaller than both graphs, "
                            "or with >= 2 maximum mappings; a session step counts when the matcher object has answered at least one "
@@ -2234,6 +2697,83 @@ def run(ctx):
                 ctx.count("session_route:" + st["route"])
     if ok:
         ok &= run_sessions(ctx, rsessions, "session-routes")
+    # ---- representation and scale (appended after the older streams so that their draws from ctx.rnd are unchanged)
+    vrnt = lambda p=0.2: "mtg" if ctx.rnd.random() < p else "main"
+    #  (a) the tiny-exhaustive population with its two bond orders written as LABELS: every ordered pair of <=3-node classes
+    #      (quick: a seeded part), default options, main variant, maximum mode and plain enumeration
+    tsym = []
+    for a in cls3:
+        for b in cls3:
+            if not ctx.quick or ctx.rnd.random() < 0.12:
+                base = {"g1": tiny_graph(a, 0), "g2": tiny_graph(b, 10, ctx.rnd), "variant": "main",
+                        "node_keys": None, "node_defaults": None, "edge_keys": None}
+                tsym.append(tiny_symbolic(base, ctx.rnd.choice(SYMBOL_VOCABS)))
+    ctx.count("tiny_symbolic_pairs", len(tsym))
+    if ok:
+        ok &= run_cases(ctx, tsym, "tiny-symbolic<=3", modes_main=[(True, False), (False, False)])
+    #  (b) molecule-like pairs with symbolic bond orders (same / mixed with numbers / another vocabulary / one graph only /
+    #      ITS pairs with a non-numeric member), half of them with every option at its default
+    nsym = 220 if ctx.quick else 3000
+    scases = []
+    for i in range(nsym):
+        how = SYMBOLIC_HOW[i % len(SYMBOLIC_HOW)]
+        ctx.count("symbolic:" + how)
+        scases.append(symbolic_case(ctx.rnd, vrnt(0.15), how))
+    if ok:
+        ok &= run_cases(ctx, scases, "symbolic-orders")
+    #  (c) numbers of mixed Python type / print, unselected attributes, falsy labels, multi-digit numbers and huge ids
+    ntyp = 160 if ctx.quick else 2000
+    tcases = [types_case(ctx.rnd, vrnt()) for _ in range(ntyp)]
+    for c in tcases:
+        for st in c["dress"]["num"]:
+            ctx.count("dress_style:" + st)
+        ctx.count("dress_ids:" + ("mixed" if c["dress"].get("ids") else "int"))
+    if ok:
+        ok &= run_cases(ctx, tcases, "value-types")
+    nx_ = 80 if ctx.quick else 1000
+    if ok:
+        ok &= run_cases(ctx, [extras_case(ctx.rnd, vrnt()) for _ in range(nx_)], "unselected-attributes")
+    nfal = 120 if ctx.quick else 1500
+    if ok:
+        ok &= run_cases(ctx, [falsy_case(ctx.rnd, vrnt()) for _ in range(nfal)], "falsy-labels")
+    nbig = 100 if ctx.quick else 1500
+    if ok:
+        ok &= run_cases(ctx, [bignum_case(ctx.rnd, vrnt()) for _ in range(nbig)], "big-numbers")
+    #  (d) just beyond the sizes of the other streams: dense random graphs on 4 (thorough: 4..5) nodes over the tiny alphabet
+    #      (the quick tier's exhaustive part stops at 3), and molecule-like pairs of 7..8 x 7..9 atoms in maximum mode
+    nden = 160 if ctx.quick else 2000
+    dcases = []
+    for i in range(nden):
+        hi = 4 if ctx.quick else 5
+        n1, n2 = ctx.rnd.randint(3, hi), ctx.rnd.randint(4, hi)
+        if ctx.rnd.random() < 0.4:
+            n1, n2 = n2, n1
+        sym = ctx.rnd.random() < 0.3
+        c = {"g1": dense_tiny(ctx.rnd, n1, 0), "g2": dense_tiny(ctx.rnd, n2, ctx.rnd.choice([0, 10])), "variant": vrnt(0.15),
+             "node_keys": ["element"], "node_defaults": [V("*")], "edge_keys": ["order"], "modes": [[True, False], [True, True]]}
+        dcases.append(tiny_symbolic(c, ctx.rnd.choice(SYMBOL_VOCABS)) if sym else c)
+    if ok:
+        ok &= run_cases(ctx, dcases, "dense-beyond-exhaustive")
+    nsc = 24 if ctx.quick else 200
+    if ok:
+        ok &= run_cases(ctx, [scale_case(ctx.rnd, vrnt(0.15)) for _ in range(nsc)], "scale-7..9")
+    #  (e) the same populations through the component-level entry points, the other routes, and on ONE reused matcher
+    nre2 = 120 if ctx.quick else 1200
+    e2 = []
+    for i in range(nre2):
+        v = vrnt()
+        base = [symbolic_case, symbolic_case, types_case, falsy_case, extras_case, bignum_case][i % 6](ctx.rnd, v)
+        if i % 2:
+            e2.append(with_entry(ctx.rnd, base))
+        else:
+            c = route_case(ctx.rnd, v, plain=base, entry=(i % 4 == 0))
+            route_counts(ctx, c)
+            e2.append(c)
+    if ok:
+        ok &= run_cases(ctx, e2, "representation-entry/routes")
+    nrs2 = 50 if ctx.quick else 600
+    if ok:
+        ok &= run_sessions(ctx, [repr_session(ctx.rnd, vrnt()) for _ in range(nrs2)], "session-representation")
     ctx.obligation("correspondence: MCSMatcher (both variants, every mode and direction) == model SynKit.Mcs.find; "
                    "spec.mcs holds on every implementation output (component-level entry points included)", not ctx.violations)
 
